@@ -29,6 +29,8 @@ for (cid, k), c in sorted(conf.items()):
     meta["breaks_property"] = cid.upper()
     meta["confirmed_here"] = dict(c, how="tools/confirm_seeded.sh on a scratch copy of /repo: demo without / with the patch, then the listed test directories with the patch (-k 'not grpc')")
     meta["detection"] = DET.get(key, "not yet run")
+    if "1 error" in c["tests_with_change"]:
+        meta["confirmed_here"]["note"] = "the 1 error is the collection error of tests/study_tests/test_dataframe.py (pandas is not installed); it is the same on the unchanged tree"
     json.dump(meta, open(dst + "/meta.json", "w"), indent=1)
     n += 1
 print("assembled", n)
